@@ -41,6 +41,7 @@ def symbols(version: str) -> list:
         ("tx", [B, 0, 1, 0, 2], True), ("tx", [A, 0, 1, 0, 2], False),
         ("rx", f"{A};255;3;0;{wake};5\n"), ("rx", f"{B};255;3;0;{wake};5\n"),
         ("rx", f"{A};255;3;0;0;50\n"), ("rx", f"{A};255;3;0;{other};7\n"), ("rx", f"{A};255;0;0;17;2.0\n"),
+        ("txi", [A, 255, 3, 0, 18], True),  # the application sends an internal command (heartbeat request) to A
     ]
 
 
@@ -50,7 +51,9 @@ def build(version: str, sleeping: bool, combo) -> dict:
         steps.append(["restore", node, {"type": 17, "version": "2.0", "sleeping": sleeping,
                                         "children": {"0": [3, "c0", {}], "1": [3, "c1", {}]}}])
     for i, sym in enumerate(combo):
-        if sym[0] == "tx":
+        if sym[0] == "txi":
+            steps.append(["tx", [*sym[1], ""], sym[2]])
+        elif sym[0] == "tx":
             steps.append(["tx", [*sym[1], f"v{i}"], sym[2]])
         else:
             steps.append(["rx", sym[1]])
@@ -138,6 +141,9 @@ def cases(ctx):
                 yield {"version": version, "steps": steps}
     ctx.exhaustive["reported-value-and-incoming-nonwake"] = count
     _ = pool
+    for i in range(ctx.pick(400, 20000) // ctx.shard_count):
+        version = ("2.0", "2.1", "2.2", None, "1.5")[i % 5]
+        yield {"version": version, "steps": histories.rich_history(rng, version, rng.choice([20, 60, 150]))}
     # random long histories
     for i in range(ctx.pick(300, 8000) // ctx.shard_count):
         version = ("2.0", "2.1", "2.2", "2.2", "1.5")[i % 5]
